@@ -1,5 +1,6 @@
 import P2sh.Model.Ops
 import P2sh.Proofs.IntLemmas
+import P2sh.Core.Prog
 /-!
 # C05 — match ranges: `a..b` excludes `b`, `a..=b` includes it
 
@@ -75,5 +76,33 @@ example : rangeTest false (.int 5) (.int 3) (.int 5) = false ∧ rangeTest true 
 theorem eq_pattern_int (v p : Int64) :
     execOperator .notEqual (.int v) (.int p) = .ok (.bool (decide (v ≠ p))) := by
   by_cases h : v = p <;> simp [execOperator, Val.eq, h]
+
+/-! ### `while` repeats its body until the condition is falsey (core fragment)
+
+The reference evaluation of `while c { body }` (`Core.evalS`) is, by definition, "evaluate `c`;
+falsey ⇒ leave; else run the body and start again".  `Core.compileS_correct` proves that the
+code the compiler emits for the loop (condition, `JumpIfFalse` to the exit, body, `Jump` back)
+reproduces every terminating run of it, whatever the number of iterations.  The three lemmas
+below are the loop's defining equations in the form the statement uses. -/
+
+open P2sh.Core in
+theorem while_exits_on_falsey (fuel : Nat) (c : CExpr) (body : List CStmt) (g g1 : List Val) (vc : Val)
+    (hc : eval g c = some (vc, g1)) (hf : vc.isFalsey = true) :
+    evalS (fuel + 1) g (.whileS c body) = some g1 := by
+  simp [evalS, hc, hf]
+
+open P2sh.Core in
+theorem while_repeats_on_truthy (fuel : Nat) (c : CExpr) (body : List CStmt) (g g1 g2 : List Val) (vc : Val)
+    (hc : eval g c = some (vc, g1)) (hf : vc.isFalsey = false) (hb : evalP fuel g1 body = some g2) :
+    evalS (fuel + 1) g (.whileS c body) = evalS fuel g2 (.whileS c body) := by
+  simp [evalS, hc, hf, hb]
+
+open P2sh.Core in
+/-- the compiled loop: condition, exit test, body, back edge — and it reproduces every terminating run -/
+theorem while_compiled (fuel : Nat) (c : CExpr) (body : List CStmt) (C : List Instr) (K : List Val) (pos k : Nat)
+    (stk g g' : List Val) (h : codeAt C pos (compileS pos k (.whileS c body))) (hp : poolAt K k (constsS (.whileS c body)))
+    (he : evalS fuel g (.whileS c body) = some g') :
+    Steps C K ⟨pos, stk, g⟩ ⟨pos + bytes (compileS pos k (.whileS c body)), stk, g'⟩ :=
+  compileS_correct fuel _ C K pos k stk g g' h hp he
 
 end P2sh.Props.C05
